@@ -19,7 +19,7 @@ excluded by the user.  Only N-1 instances reach the NLP, silently.
 Expected rows are computed with scipy B-splines from the raw coefficient decision variables.
 """
 import sys
-sys.path.insert(0, '/tmp/nx_pydeps')
+sys.path.insert(0, '/verif/pydeps')
 import numpy as np, casadi as ca
 from scipy.interpolate import BSpline
 from rockit import Ocp, SplineMethod, MultipleShooting
